@@ -120,7 +120,7 @@ theorem tie_geocentricToGeodetic (d : Datum α) (x y z : α) :
        let rx := Gen.datum_geocentric_to_geodetic_RX_1 d st
        let cphi0 := Gen.datum_geocentric_to_geodetic_CPHI0_1 d st rx
        let sphi0 := Gen.datum_geocentric_to_geodetic_SPHI0_1 ct rx
-       let (cphi, sphi, height) := geodeticLoop d p z ct st 30 cphi0 sphi0
+       let (cphi, sphi, height) := geodeticLoop d p z ct st Gen.datum_geocentric_to_geodetic_natmaxiter_1 cphi0 sphi0
        (lon, Gen.datum_geocentric_to_geodetic_Latitude_2 sphi cphi, height)) := by
   -- unfold the regenerated definitions, then the two sides are syntactically equal (a bare `rfl` would start
   -- evaluating the 30-pass loop)
